@@ -58,6 +58,9 @@ BUILD = [
     b"}\x8c\x04fromK\x01s",      # dict whose key is a Python keyword (kwargs of NEWOBJ_EX)
     b"}\x8c\x02\xc2\xb5K\x01s",   # dict whose key is an identifier that NFKC-normalises to another one (U+00B5)
     b"czqv_m\nC\nK\x01\x85",     # TWO values: class + 1-tuple (operands for NEWOBJ_EX with kwargs / NEWOBJ / REDUCE)
+    b"(K\x01K\x02K\x03K\x04d",  # dict via DICT with two distinct pairs (key/value pairing and order)
+    b"}(K\x01K\x02K\x03K\x04u",  # dict via SETITEMS with two distinct pairs
+    b"(K\x01K\x02K\x03l",      # list via LIST with three distinct items
 ]
 NB = len(BUILD)
 MEMO = [b"", b"\x94", b"q\x05", b"q\x01"]      # none / MEMOIZE / BINPUT 5 / BINPUT 1 (collides with a later MEMOIZE at len(memo) == 1)
@@ -178,8 +181,8 @@ def make_lock(op, oracle):
 def _cell(op, oracle, h, b1, b2):
     """every (memo1, memo2, observer) program of the cell; returns None or a description of the first failure"""
     m1s = (0, 3) if QUICK[0] else (0, 1, 2, 3)
-    m2s = (0, 1, 2, 3)
-    obs = (0, 1, 8, 10) if QUICK[0] else range(len(OBS))
+    m2s = (0, 1, 2) if QUICK[0] else (0, 1, 2, 3)
+    obs = (0, 1, 10) if QUICK[0] else range(len(OBS))
     bad = ("EVENTS",) if oracle == "C03" else ("VALUE", "EXEC")
     for m1 in m1s:
         for m2 in m2s:
